@@ -340,7 +340,9 @@ def gdDispatch {α : Type} (k : GdKind) (plain dict : Except Err α) : Except Er
 /-! ### stale configs (outside the property's quantifier) -/
 
 /-- `if self.confobj is not None and self.confobj.search_safe is False: raise NotImplementedError`,
-the first statement of `re_match`, `re_match_typed`, `re_match_iter_typed`, `re_list_iter_typed` -/
+the first statement of `re_match`, `re_match_typed`, `re_match_iter_typed`, `re_list_iter_typed` of a line
+object, and `if self.config_objs.search_safe is False: raise NotImplementedError` of
+`CiscoConfParse.re_match_iter_typed` -/
 def guarded {α : Type} (stale : Bool) (r : Except Err α) : Except Err α :=
   if stale then .error .notImplemented else r
 
@@ -366,8 +368,7 @@ def itemIsRoot (t : T) (it : Edit.Item) : Bool :=
   | some h => parentOf t h == h
   | none => true
 
-/-- the loop of `CiscoConfParse.re_match_iter_typed` over the *current* list (there is no
-`search_safe` guard in this method) -/
+/-- the loop of `CiscoConfParse.re_match_iter_typed` over the *current* list -/
 def rootLoopItems (g : Str → GroupRes) (ip : Arg → Except Err Str) (t : T) (ty : Ty) :
     List Edit.Item → Option (Except Err Val)
   | [] => none
@@ -375,11 +376,19 @@ def rootLoopItems (g : Str → GroupRes) (ip : Arg → Except Err Str) (t : T) (
     if itemIsRoot t it && matched (g it.text) then some (convGroup ip ty (g it.text))
     else rootLoopItems g ip t ty r
 
-def stRootIterTyped (s : Edit.S) (g : Str → GroupRes) (ip : Arg → Except Err Str) (ty : Ty) (d : Arg)
+/-- the body of `CiscoConfParse.re_match_iter_typed` below its guard: the loop over the current list, then the default -/
+def rootOnItems (s : Edit.S) (g : Str → GroupRes) (ip : Arg → Except Err Str) (ty : Ty) (d : Arg)
     (u : Bool) : Except Err Val :=
   match rootLoopItems g ip s.tree ty s.items with
   | some r => r
   | none => typedDefault (onState s g ip) ty d u
+
+/-- `CiscoConfParse.re_match_iter_typed` on an edit state: the `search_safe` guard, then the loop.  (Before the repair
+`fix: CiscoConfParse.re_match_iter_typed() refuses to search an uncommitted config` the method had no guard and
+answered `rootOnItems` on a stale state too, uncommitted lines included: finding FC07a.) -/
+def stRootIterTyped (s : Edit.S) (g : Str → GroupRes) (ip : Arg → Except Err Str) (ty : Ty) (d : Arg)
+    (u : Bool) : Except Err Val :=
+  guarded s.stale (rootOnItems s g ip ty d u)
 
 /-! ### the documented orders (specification side) -/
 
